@@ -40,7 +40,7 @@ def plan(tier):
 
 def floors(tier):
     return {"distinct_nontrivial": 1000, "movement_evaluations": 200000, "geometry_candles": 5000, "pattern_verdicts": 3000,
-            "pattern_variants_seen": 15, "invariance_checks": 20000, "merged_geometry_reads": 2000}
+            "pattern_variants_seen": 16, "invariance_checks": 20000, "merged_geometry_reads": 2000}
 
 
 def gen_case(rng, tier, idx):
